@@ -27,7 +27,7 @@ type Target struct {
 	GenSrc  []int    `json:"gensrc,omitempty"`  // IDs of (lower) targets whose generated file is a declared source here
 	Always  bool     `json:"always,omitempty"`
 	Default bool     `json:"default,omitempty"`
-	Body    int      `json:"body"`   // template 0..8
+	Body    int      `json:"body"`   // template 0..9
 	K       string   `json:"k"`      // Starlark literal of the constant the body references
 	Salt    int      `json:"salt"`   // literal inside the body code
 	Helper  int      `json:"helper"` // helper module used by templates 5 and 6
@@ -381,6 +381,10 @@ func (m *Model) renderTarget(t *Target) string {
 		ins = fmt.Sprintf("[FLAGV, K%d]", id)
 	case 8:
 		ins = fmt.Sprintf("[T%d, K%d]", m.valueTarget(t), id)
+	case 9:
+		// two functions with the same name ("lambda"); the constant is referenced by the second
+		fmt.Fprintf(&b, "L%d = lambda: %d\nM%d = lambda: K%d\n", id, id, id, id)
+		ins = fmt.Sprintf("[L%d(), M%d()]", id, id)
 	}
 
 	indent := "    "
